@@ -22,7 +22,8 @@ RULE = ('library constructor inputs x global duration settings: construct_repeti
         'data-to-data sub-chains of the three shipped layouts, cycles 0..6, refocusing on/off, random initial states; construct_repetition_code_multi_round_circuit on rounds lists; '
         'construct_calibration_circuit (QUBIT / QUTRIT, 1..5 qubits); each under positive settings for READOUT, MICROWAVE, FLUX, RESET that are multiples of 0.25 and include '
         'microwave > readout, all equal, all 0.25 and 2^15.  Observed: extracted relation graph, listing (class, channels, start, end) and duration as constructed and after '
-        'apply_modifiers().  Non-trivial: at least 2 QEC cycles (or 2 rounds entries / a QUTRIT calibration) so that repetition blocks, barriers and measurements interleave')
+        'apply_modifiers().  Non-trivial: at least 2 QEC cycles (or 2 rounds entries / a QUTRIT calibration) so that repetition blocks, barriers and measurements interleave'
+        ' A third of the repetition-code inputs is run a second time as: fresh construction, apply_modifiers(), the duration read first, then the listing.')
 
 
 def _env_corners(rng):
